@@ -7,10 +7,67 @@ import itertools
 from fractions import Fraction
 
 P = 2147483647  # 2^31 - 1; all hash arithmetic stays far below 2^63
+GAPF = 1 << 14         # float mode: selection margin below which a decision counts as a tie = GAPF * eps
+TOLF = 1 << 10         # float mode: tolerance on a reported score = TOLF * eps (eps of the accumulating dtype)
 MARGIN = 0.12          # distance (in grid units) every value keeps from a rounding boundary
 DEPTH_CAP = 14         # the LM refuses to be called deeper than this (guards against hangs)
 
 _rows_cache = {}
+
+# every floating dtype a language model may compute in; eps as torch.finfo(dtype).eps
+EPS = {"float16": Fraction(1, 1 << 10), "bfloat16": Fraction(1, 1 << 7),
+       "float32": Fraction(1, 1 << 23), "float64": Fraction(1, 1 << 52)}
+DTYPES = tuple(EPS)
+
+
+def lm_dtype(opts, key="dtype"):
+    """the floating dtype the (component of the) language model computes its scores in.
+    `double: true` is the older spelling of dtype=float64 (kept for stored corpus cases / replays)."""
+    d = opts.get(key)
+    if d is None and key == "dtype2":
+        d = opts.get("dtype")
+    if d is None:
+        d = "float64" if opts.get("double") else "float32"
+    return d
+
+
+def lm_dtypes(opts):
+    """all dtypes that take part in the model's scores (fusion models: both components)."""
+    if opts.get("kind") in ("fusion", "mixfusion"):
+        return [lm_dtype(opts), lm_dtype(opts, "dtype2")]
+    return [lm_dtype(opts)]
+
+
+def result_eps(opts):
+    """eps of the dtype the search accumulates in: torch's promotion of the float32 start score with
+    everything the language model hands over (float16 + bfloat16 promote to float32 as well)."""
+    start = EPS["float64"] if opts.get("default64") else EPS["float32"]
+    return min([start] + [EPS[d] for d in lm_dtypes(opts)])
+
+
+class default_dtype:
+    """`torch.set_default_dtype(torch.float64)` for the duration (opts["default64"]): the search's start
+    score and everything the library creates without an explicit dtype is then double."""
+
+    def __init__(self, opts):
+        self.on = bool(opts.get("default64"))
+
+    def __enter__(self):
+        if self.on:
+            import torch
+            self.old = torch.get_default_dtype()
+            torch.set_default_dtype(torch.float64)
+
+    def __exit__(self, *a):
+        if self.on:
+            import torch
+            torch.set_default_dtype(self.old)
+        return False
+
+
+def tdtype(name):
+    import torch
+    return getattr(torch, name)
 
 
 def quantise(x, qbits):
@@ -69,9 +126,16 @@ def safe_rows(V, qbits, kind):
     return out
 
 
-def _hash_lm(V, qbits, opts, salt=0):
-    """opts: {"zeros": bool, "uniform": bool, "hard_force": bool, "double": bool}. Returns the LM module.
-    `salt` separates the hash streams of the two components of a fusion model."""
+def neartie_delta(opts):
+    """the spacing of the near-tie offsets: 2^neartie decision margins of the accumulating dtype."""
+    nt = opts.get("neartie")
+    return None if nt is None else float(Fraction(1 << nt) * GAPF * result_eps(opts))
+
+
+def _hash_lm(V, qbits, opts, salt=0, dtype="float32", delta=None):
+    """opts: {"zeros": bool, "uniform": bool, "hard_force": bool, "view": bool}. Returns the LM module.
+    `salt` separates the hash streams of the two components of a fusion model; `dtype` is the floating
+    dtype the logits are handed over in; `delta` (float mode only) switches the near-tie rows on."""
     import torch
     from pydrobert.torch.modules import MixableSequentialLanguageModel
 
@@ -113,7 +177,7 @@ def _hash_lm(V, qbits, opts, salt=0):
             self.calls.append((i, hist.size(0), hist.size(1)))
             sel = (h * 40692 + ctx[:, 1] * 40014 + 7 + 104729 * salt) % P
             if opts.get("uniform"):
-                logits = torch.zeros((hist.size(1), V))
+                logits = torch.zeros((hist.size(1), V), dtype=torch.float32)
             else:
                 logits = self.rows.index_select(0, sel % self.rows.size(0))
                 if self.zrows is not None:
@@ -123,18 +187,30 @@ def _hash_lm(V, qbits, opts, salt=0):
             if bool(force.any()):
                 e = ctx[:, 3].clamp(0, V - 1)
                 if opts.get("hard_force"):
-                    forced = torch.full((hist.size(1), V), float("-inf"))
+                    forced = torch.full((hist.size(1), V), float("-inf"), dtype=torch.float32)
                     forced.scatter_(1, e.unsqueeze(1), 0.0)
                 else:
-                    forced = torch.zeros((hist.size(1), V))
+                    forced = torch.zeros((hist.size(1), V), dtype=torch.float32)
                     for ev in range(V):
                         m = e == ev
                         if bool(m.any()):
                             fr_ = self.frows[ev]
                             forced[m] = fr_.index_select(0, sel[m] % fr_.size(0))
                 logits = torch.where(force.unsqueeze(1), forced, logits)
-            if opts.get("double"):
-                logits = logits.double()
+            if opts.get("scale"):
+                # large-magnitude logits (exact: a power of two): log-probabilities of -100 .. -800, where
+                # exp() of a difference underflows in float32 / float64
+                logits = logits * float(opts["scale"])
+            if delta is not None:
+                # near-ties: the row is coarsened to whole numbers (many exact ties between the tokens),
+                # then every token gets its own offset j * delta, j = 0..V-1 in an order that depends on
+                # the threaded state. delta is a small multiple of the decision margin of the dtype the
+                # search accumulates in - for a float64 model far below what float32 can resolve.
+                j = (sel.unsqueeze(1) + torch.arange(V).unsqueeze(0)) % V
+                fin = ~torch.isinf(logits)
+                logits = torch.where(fin, torch.round(logits.double()) + j.double() * delta,
+                                     logits.double())
+            logits = logits.to(tdtype(dtype))
             if opts.get("view"):
                 # hand the logits over as a non-contiguous view (left part of a wider tensor)
                 logits = torch.cat([logits, torch.full_like(logits[:, :1], 7.0)], 1)[:, :-1]
@@ -148,6 +224,95 @@ def _hash_lm(V, qbits, opts, salt=0):
                                    prev_true[k], prev_false[k]) for k in prev_true}
 
     return HashLM()
+
+
+REC_H = 3
+
+
+def rec_h0(opts, ctx):
+    """the caller-given initial recurrent state of the "rec" model: one row of REC_H values per batch
+    element, derived from the element's seeds, in the model's own dtype (thirds/sevenths: the value
+    depends on the dtype)."""
+    import torch
+    k = torch.tensor([1, 3, 5], dtype=torch.long)
+    raw = ((ctx[:, :1] * k + ctx[:, 1:2]) % 193 - 96).double() / 67.0
+    return raw.to(tdtype(lm_dtype(opts)))
+
+
+def _rec_lm(V, opts):
+    """A recurrent model whose threaded state is a FLOATING tensor in the model's own dtype:
+    h' = h * a + emb[last token], logits = bias + sum_j h_j * out[j]. The initial state comes from the
+    caller (`initial_state["h"]`, in that dtype) or defaults to zeros. Only correctly rounded elementwise
+    operations (mul, add, gather) are used, written out term by term, so a row's value cannot depend on
+    what else is in the batch; the parameters are not dyadic, so what is computed depends on the dtype.
+    Float mode only."""
+    import numpy as np
+    import torch
+    from pydrobert.torch.modules import MixableSequentialLanguageModel
+
+    class RecLM(MixableSequentialLanguageModel):
+        def __init__(self):
+            super().__init__(V)
+            rs = np.random.RandomState(4243 + 17 * V)
+            self.register_buffer("a", torch.tensor([0.5, -0.75, 0.625], dtype=torch.float64))
+            self.register_buffer("emb", torch.tensor(
+                rs.randint(-96, 97, size=(V, REC_H)) / 74.0, dtype=torch.float64))
+            self.register_buffer("out", torch.tensor(
+                rs.randint(-64, 65, size=(REC_H, V)) / 110.0, dtype=torch.float64))
+            self.register_buffer("bias", torch.tensor(
+                rs.randint(-96, 1, size=(V,)) / 29.0, dtype=torch.float64))
+            self.calls = []
+
+        def update_input(self, prev, hist):
+            if "ctx" in prev and "h" in prev:
+                return prev
+            out = dict(prev)
+            if "ctx" not in prev:
+                ctx = torch.zeros((hist.size(1), 4), dtype=torch.long)
+                ctx[:, 2] = -1
+                out["ctx"] = ctx
+            if "h" not in prev:
+                out["h"] = torch.zeros((hist.size(1), REC_H), dtype=self.a.dtype)
+            return out
+
+        def calc_idx_log_probs(self, hist, prev, idx):
+            i = int(idx)
+            if i > DEPTH_CAP:
+                raise RuntimeError("harness LM: depth cap exceeded (search does not terminate)")
+            h, ctx = prev["h"], prev["ctx"]
+            if i > 0:
+                tok = hist[i - 1]
+                h = h * self.a + self.emb.index_select(0, tok)
+            self.calls.append((i, hist.size(0), hist.size(1)))
+            logits = self.bias.unsqueeze(0) + h[:, 0:1] * self.out[0]
+            for j in range(1, REC_H):
+                logits = logits + h[:, j:j + 1] * self.out[j]
+            if opts.get("scale"):
+                logits = logits * float(opts["scale"])
+            force = (ctx[:, 2] >= 0) & (ctx[:, 2] <= i)
+            if bool(force.any()):
+                e = ctx[:, 3].clamp(0, V - 1)
+                onehot = torch.zeros((hist.size(1), V), dtype=torch.bool).scatter_(1, e.unsqueeze(1), True)
+                if opts.get("hard_force"):
+                    forced = torch.where(onehot, torch.zeros_like(logits),
+                                         torch.full_like(logits, float("-inf")))
+                else:
+                    forced = torch.where(onehot, logits + 9.0, logits)
+                logits = torch.where(force.unsqueeze(1), forced, logits)
+            if opts.get("view"):
+                logits = torch.cat([logits, torch.full_like(logits[:, :1], 7.0)], 1)[:, :-1]
+            return logits, {"h": h, "ctx": ctx}
+
+        def extract_by_src(self, prev, src):
+            return {"h": prev["h"].index_select(0, src), "ctx": prev["ctx"].index_select(0, src)}
+
+        def mix_by_mask(self, prev_true, prev_false, mask):
+            return {k: torch.where(mask.unsqueeze(1), prev_true[k], prev_false[k]) for k in prev_true}
+
+    lm = RecLM()
+    if lm_dtype(opts) != "float64":
+        lm = lm.to(tdtype(lm_dtype(opts)))
+    return lm
 
 
 def lookup_dicts(V, order, sos, seed):
@@ -194,12 +359,15 @@ def make_lm(V, qbits, opts):
     has `.calls` = [(idx, hist.size(0), hist.size(1))] for each calc_idx_log_probs call."""
     kind = opts.get("kind", "hash")
     if kind == "hash":
-        return _hash_lm(V, qbits, opts)
+        return _hash_lm(V, qbits, opts, 0, lm_dtype(opts), neartie_delta(opts))
+    if kind == "rec":
+        return _rec_lm(V, opts)
     if kind in ("fusion", "mixfusion"):
         from pydrobert.torch.modules import (ExtractableShallowFusionLanguageModel,
                                              MixableShallowFusionLanguageModel)
-        first = _hash_lm(V, qbits, opts, 0)
-        second = _hash_lm(V, qbits, {"double": opts.get("double"), "view": opts.get("view")}, 1)
+        first = _hash_lm(V, qbits, opts, 0, lm_dtype(opts), neartie_delta(opts))
+        second = _hash_lm(V, qbits, {"view": opts.get("view"), "scale": opts.get("scale")}, 1,
+                          lm_dtype(opts, "dtype2"))
         cls = MixableShallowFusionLanguageModel if kind == "mixfusion" else ExtractableShallowFusionLanguageModel
         lm = cls(first, second, float(opts.get("beta", 0.5)))
         lm.calls = first.calls
@@ -216,6 +384,8 @@ def make_lm(V, qbits, opts):
         sos = opts.get("sos", -1)
         lm = RecLookup(V, sos, lookup_dicts(V, opts.get("order", 2), sos, opts.get("table_seed", 1)))
         lm.calls = []
+        if lm_dtype(opts) != "float32":
+            lm = lm.to(tdtype(lm_dtype(opts)))     # what a user does: module.double() / .half()
         return lm
     raise ValueError(kind)
 
@@ -229,6 +399,10 @@ def initial_state(opts, ctx):
         return {}
     if kind in ("fusion", "mixfusion"):
         return {"first.ctx": ctx, "second.ctx": ctx}
+    if kind == "rec":
+        if opts.get("h0") is False:        # the recurrent state is left to the model's default (zeros)
+            return {"ctx": ctx}
+        return {"ctx": ctx, "h": rec_h0(opts, ctx)}
     return {"ctx": ctx}
 
 
